@@ -94,11 +94,11 @@ vp_mk_items(nni_stat_item *root, size_t nc, size_t ng)
 static void
 vp_check_tree(nni_stat *r)
 {
-	nni_stat *c0 = SN_FIRST(r);
 	if (g_nc == 0) {
 		__CPROVER_assert(SN_EMPTY(r), "snapshot: root without children");
 		return;
 	}
+	nni_stat *c0 = SN_FIRST(r);
 	__CPROVER_assert(SN_IS(c0, g_it1, r), "snapshot: first child is the snapshot of the first registered child");
 	if (g_nc == 1) {
 		__CPROVER_assert(SN_ONE(r, c0), "snapshot: exactly one child");
